@@ -29,9 +29,11 @@
 (*     WalkBox a value from ValList; a walk of WalkDepth steps is one      *)
 (*     scene (dense, interacting samples, ambiguous faces, tunnels).       *)
 (*                                                                         *)
-(* Checked on the specification itself (invariant Design, never fatal: a   *)
-(* failure is printed and must be confirmed on the real code, because      *)
-(* MarchRef depends on the code's own table): the reference surface of     *)
+(* Checked on the specification itself (DesignBad, evaluated with every    *)
+(* emitted scene and printed as its `design` field; never fatal: a failure *)
+(* must be confirmed on the real code, because MarchRef depends on the     *)
+(* code's own table, and the check turns an unconfirmed one into an        *)
+(* infrastructure failure): the reference surface of                       *)
 (* every generated scene is closed, consistently oriented, free of         *)
 (* degenerate (repeated-corner or zero-area) triangles, encloses positive  *)
 (* volume, and all its vertices lie on lattice edges that cross the        *)
